@@ -309,11 +309,22 @@ impl Polynomial<Cmplx> {
                     x = Cmplx::new( x.real, 0.0 );
                 }
                 poly_roots[j] = x;
-                b = ad[ j + 1 ];
-                for jj in (0..j+1).rev() {
-                    let c = ad[jj];
-                    ad[jj] = b;
-                    b = x * b + c;
+                if x.abs() > 1.0 {
+                    // Deflating a root of large modulus from the leading coefficient down amplifies the
+                    // rounding errors of the quotient (the roots found afterwards are then roots of a
+                    // different polynomial); from the constant term up the same division is stable.
+                    b = Cmplx::zero();
+                    for jj in 0..j+1 {
+                        b = ( b - ad[jj] ) / x;
+                        ad[jj] = b;
+                    }
+                } else {
+                    b = ad[ j + 1 ];
+                    for jj in (0..j+1).rev() {
+                        let c = ad[jj];
+                        ad[jj] = b;
+                        b = x * b + c;
+                    }
                 }
             }
         }
